@@ -20,7 +20,7 @@ use ckb_verification::{
     TimeRelativeTransactionVerifier, TransactionError,
 };
 
-use ckb_traits::HeaderFieldsProvider;
+use ckb_traits::{HeaderFieldsProvider, HeaderProvider};
 
 use crate::storage::StorageWithChainData;
 
@@ -218,6 +218,14 @@ fn resolve_tx(
             resolved_dep_groups.push(dep_group);
         } else {
             resolved_cell_deps.push(resolve_cell(&cell_dep.out_point(), false)?);
+        }
+    }
+
+    // The header deps have to be known blocks, as the full nodes require when they resolve the
+    // transaction (`fetch_header` makes a header known).
+    for block_hash in transaction.header_deps_iter() {
+        if swc.get_header(&block_hash).is_none() {
+            return Err(OutPointError::InvalidHeader(block_hash));
         }
     }
 
